@@ -24,12 +24,17 @@ def classify_build(out, feats):
     msg = re.sub(r"\"[^\"]*\"", "\"…\"", msg)[:90]
     where = re.search(r"(gen/[\w/]+/|cmd/[\w-]+/|\w+\.go)", first)
     area = "/".join(where.group(1).strip("/").split("/")[-2:]) if where else "?"
+    if feats.get("risky"):
+        kind = ("redeclared" if "redeclared" in msg else "no-new-variables" if "no new variables" in msg else
+                "selector-on-shadowed-name" if re.search(r"\w+\.\w+ undefined", msg) else "type-mismatch" if "cannot use" in msg else
+                "invalid-operation" if "invalid operation" in msg else "undefined-name" if "undefined:" in msg else "declared-and-not-used" if "declared and not used" in msg else "other: " + msg[:60])
+        return "build/attribute-named-%s/%s" % (feats["risky"], kind)
     prefix = "build/nested-inline-object" if feats["nested_inline"] else "build"
     return "%s/%s: %s" % (prefix, re.sub(r"(front|svc|store|calc)", "S", area), msg)
 
 
 def run(c):
-    n = 100 if c.tier == "quick" else 2500
+    n = int(os.environ.get("VERIF_C01_N", 0)) or (100 if c.tier == "quick" else 2500)
     c.cov["rule"] = ("design stream: index i visits cell i of the first-order feature table (primitive x location x "
                      "required/default/validation keyword, verb) and cycles through plain / errors / security / errors+security / "
                      "nested-inline-object variants; the rest of each design is random (1-2 services x 1-3 methods, user and "
@@ -73,6 +78,7 @@ def run(c):
         wd = os.path.join(work, "d%d" % i)
         rep = designs.run_design(dj, wd, example=True)
         feats = designs.features(dj)
+        feats["risky"] = designs.risky_name(dj) if "-risky-names" in flags else None
         res = {"index": i, "flags": flags, "feats": feats, "design": dj}
         if rep.get("crash"):
             res.update(status="crash", detail=rep["crash"])
